@@ -58,6 +58,9 @@ E = lambda i: ['=', i]       # noqa
 
 # (schema, original lines, rewritten lines)
 PAIRS_Q = [
+    # cased non-ASCII letters in a section name, in two letter cases
+    ('S2', ['<ta z\u00e9r>', ['  ka ', V('v')], '</ta>', '<ta \u03c9x>', '  ka 2', '</ta>'],
+     ['<TA Z\u00c9R>', ['ka ', E('v')], '</Ta>', '<ta \u03a9X>', 'ka 2', '</TA>']),
     # indentation and trailing whitespace (symbolic whitespace characters)
     ('S2', ['kt 5', ['<ta ', W('n'), '>'], [W('k'), ' ', V('v')], '</ta>'],
            [[S('a'), 'kt 5', S('b', 2)], [S('c'), '<ta ', E('n'), '>', S('d')],
